@@ -26,6 +26,9 @@ pub enum Extra {
 	SubNotifUnknown,
 	/// an array packing the answers to wire messages 0 and 1
 	PackedPair,
+	/// the reply to the batch (op 1) arrives in ONE array behind notifications for the unread subscription (op 0) that
+	/// overflow its buffer
+	NotifsThenBatchInOneArray,
 }
 
 pub struct MatchScenario {
@@ -64,12 +67,18 @@ impl MatchScenario {
 				}
 			}
 		}
+		if self.extras.contains(&Extra::NotifsThenBatchInOneArray) {
+			// ops = [SubscribeHold, Batch(n)]: the subscribe (wire 0) is answered as usual, the batch (wire 1) only inside the array
+			env.retain(|e| !matches!(e, EnvEvent::Answer { msg, .. } if *msg == self.warmup + 1));
+			env.push(EnvEvent::PackedNotifsAndBatch { sub_msg: self.warmup, batch_msg: self.warmup + 1, notifs: 6 });
+		}
 		for e in &self.extras {
 			let idtxt = |n: u64| if matches!(self.id_kind, IdKind::String) { format!("\"{n}\"") } else { n.to_string() };
 			match e {
 				Extra::UnknownId => env.push(EnvEvent::Raw { after: 1, text: format!(r#"{{"jsonrpc":"2.0","id":{},"result":"stray"}}"#, idtxt(77)) }),
 				Extra::MethodNotif => env.push(EnvEvent::Raw { after: 0, text: r#"{"jsonrpc":"2.0","method":"server_says","params":["stray-notif"]}"#.into() }),
 				Extra::SubNotifUnknown => env.push(EnvEvent::Raw { after: 0, text: r#"{"jsonrpc":"2.0","method":"n","params":{"subscription":"nobody","result":"stray-sub"}}"#.into() }),
+				Extra::NotifsThenBatchInOneArray => {}
 				Extra::PackedPair => env.push(EnvEvent::Raw {
 					after: 2,
 					text: format!(r#"[{{"jsonrpc":"2.0","id":{},"result":"packed0"}},{{"jsonrpc":"2.0","id":{},"result":"packed1"}}]"#, idtxt(0), idtxt(1)),
@@ -129,7 +138,9 @@ impl Scenario for MatchScenario {
 				Some(k) => {
 					let okt = clim::answer_for(&sent[k], k, &AnswerKind::Ok);
 					let ert = clim::answer_for(&sent[k], k, &AnswerKind::Err);
-					l.deliveries.iter().filter(|(_, _, t)| *t == okt || *t == ert).map(|(_, p, t)| (*p, t.clone())).collect()
+					// a batch reply may also arrive at the end of a longer array (behind notifications)
+					let tail = if okt.starts_with('[') { format!(",{}", &okt[1..]) } else { "\u{0}".to_string() };
+					l.deliveries.iter().filter(|(_, _, t)| *t == okt || *t == ert || t.ends_with(&tail)).map(|(_, p, t)| (*p, t.clone())).collect()
 				}
 				None => vec![],
 			};
@@ -161,7 +172,7 @@ impl Scenario for MatchScenario {
 					};
 					let expected = match op {
 						FeOp::Call | FeOp::LateCall | FeOp::AbandonCall => format!("\"r{k}\""),
-						FeOp::Subscribe | FeOp::SubscribeDrop => format!("Subscription(Str(\"S{k}\"))"),
+						FeOp::Subscribe | FeOp::SubscribeDrop | FeOp::SubscribeHold => format!("Subscription(Str(\"S{k}\"))"),
 						FeOp::Batch(n) | FeOp::LateBatch(n) => format!("[{}]", (0..*n).map(|j| format!("\"r{k}.{j}\"")).collect::<Vec<_>>().join(",")),
 						FeOp::Notif | FeOp::RegisterNotif => "sent".into(),
 					};
@@ -282,6 +293,12 @@ pub fn scenarios(thorough: bool) -> Vec<MatchScenario> {
 			}
 		}
 	}
+	// (e) a batch reply packed into one array behind notifications that overflow an unread subscription
+	for id_kind in [IdKind::Number, IdKind::String] {
+		for n in if thorough { vec![1usize, 2, 3] } else { vec![2] } {
+			out.push(MatchScenario { id_kind, ops: vec![FeOp::SubscribeHold, FeOp::Batch(n)], answers: vec![Ans::Ok, Ans::Ok], extras: vec![Extra::NotifsThenBatchInOneArray], lib_points: false, tx_points: false, rx_split_ping_ms: None, warmup: 0 });
+		}
+	}
 	// (d) ids that cross a power of ten (string ids compare lexicographically: "10" < "9")
 	for id_kind in [IdKind::Number, IdKind::String] {
 		for warmup in if thorough { vec![7, 8, 9, 10, 98, 99] } else { vec![8, 9] } {
@@ -297,7 +314,7 @@ pub fn scenarios(thorough: bool) -> Vec<MatchScenario> {
 pub fn check(rep: &Reporter) {
 	let thorough = rep.tier.thorough();
 	rep.set_rule(
-		"front-end histories of 2–3 concurrent operations out of {request, subscribe, batch of 2, notification} × answer pattern per wire message {ok, error object, omitted, delivered twice} × extra server messages {none, method + unknown-subscription notifications, response with a never-sent id, array packing two single responses} × id kind {number, string}; every front-end start and every delivery is a scheduling point, so all permutations of answers and all interleavings with late-starting calls are schedules of the DFS; complete tree when ≤ cap executions, else all schedules with ≤ K deviations. plus (c) a transport whose receive() is not cancellation safe (one more await after taking the message) while the read task's inactivity timer ticks every 1–3 virtual ms, and (d) batches whose ids start at 8/9 (thorough 7–10, 98, 99) after a warm-up, both id kinds. Oracle: the value each future returns is the payload of the delivered message whose id equals the id found in that call's own wire bytes.",
+		"front-end histories of 2–3 concurrent operations out of {request, subscribe, batch of 2, notification} × answer pattern per wire message {ok, error object, omitted, delivered twice} × extra server messages {none, method + unknown-subscription notifications, response with a never-sent id, array packing two single responses} × id kind {number, string}; every front-end start and every delivery is a scheduling point, so all permutations of answers and all interleavings with late-starting calls are schedules of the DFS; complete tree when ≤ cap executions, else all schedules with ≤ K deviations. plus (c) a transport whose receive() is not cancellation safe (one more await after taking the message) while the read task's inactivity timer ticks every 1–3 virtual ms, and (e) a batch reply packed into one array behind notifications overflowing an unread subscription, and (d) batches whose ids start at 8/9 (thorough 7–10, 98, 99) after a warm-up, both id kinds. Oracle: the value each future returns is the payload of the delivered message whose id equals the id found in that call's own wire bytes.",
 	);
 	rep.assume("answers are tagged with the index of the wire message they answer, so 'own response' is decidable from bytes alone");
 	let scen = scenarios(thorough);
